@@ -118,6 +118,13 @@ CHECKS = {
                         "documented-large requests (tiny refine lengths, huge LevelSet grids, >4096 segments) are excluded and counted; non-termination would show only as a time-out (inconclusive)",
                         "the 32-bit export is not required to be finite when a 64-bit value exceeds 1e30 (float overflow is inherent)"],
     },
+    "C15": {
+        "subs": [
+            {"name": "cancel", "bin": "c15_cancel", "variant": "asan",
+             "quick": {"n": 1600, "size": 100}, "thorough": {"n": 60000, "size": 150}},
+        ],
+        "assumptions": ["serial build (MANIFOLD_PAR=-1): the k-th cancellation check is a deterministic site; the oracle itself does not depend on which site it is"],
+    },
 }
 
 PBT = "property-based testing (rapidcheck byte-tape generators, shrinking, replay files)"
@@ -153,4 +160,7 @@ MANIFEST_TEXT["C05"] = {"text": "model-based histories over a growing pool: ever
                         "note": "sampled histories of <= 24 steps; first observation happens at generated times", "technique": PBT + " (stateful, model-based: fingerprint map as reference model)"}
 MANIFEST_TEXT["C09"] = {"text": "structure-aware mutation of valid MeshGL exports, boundary-value arguments for every constructor/operation, malformed polygons/points/OBJ text, followed by programs of operations; judged by sanitizers, an exception trap, the closed-manifold-or-empty-error predicate and error stickiness; the same decoder runs under rapidcheck (seed-pure) and libFuzzer (coverage-guided, thorough tier)",
                         "note": "quick tier is generated search only; libFuzzer campaigns pin only approximately (the saved artefact is the reproducible unit)", "technique": PBT + " and coverage-guided fuzzing (libFuzzer) with an in-target semantic oracle"}
+MANIFEST_TEXT["C15"] = {"text": "fault injection at every cancellation-check site: an uncancelled run counts the checks through a guarded probe in IsCancelled, then Cancel() is injected at the k-th check for every k (or a spread of k for long runs) and the all-or-nothing / sticky / propagating / operands-untouched / context-short-circuit / progress-monotone contract is judged",
+                        "note": "check sites enumerated per program (all of them for K<=40, first/last 8 + 24 generated beyond); programs sampled", "technique": PBT + " with systematic fault (cancellation) injection through a guarded hook"}
+HOOK_COMMITS = ["e9772b10"]
 NOT_CLAIMED = {}
